@@ -96,4 +96,81 @@ theorem order_independent (G : Graph V Val) (o₁ o₂ : List V) (env0 : V → O
       ih p.length (by rw [← hlen, hp]; simp) p d (q ++ v :: post) rfl (by rw [ho, hp]; simp) hd2
     rw [this]
 
+/-! ## dependencies that are never evaluated
+
+A window entry without a message and the "previous step" of a node's first step are dependencies on vertices that do
+not exist; both orders leave them at the initial environment. `U` is the set of vertices that exist. -/
+
+/-- no vertex twice, only existing vertices, and every dependency either occurs strictly earlier or does not exist -/
+def ValidIn (G : Graph V Val) (U : V → Prop) (order : List V) : Prop :=
+  order.Nodup ∧ (∀ v ∈ order, U v) ∧
+  ∀ pre v post, order = pre ++ v :: post → ∀ d ∈ G.deps v, d ∈ pre ∨ ¬ U d
+
+/-- the fixpoint equation only needs that no dependency is evaluated at or after the vertex -/
+theorem run_fixpoint' (G : Graph V Val) (pre post : List V) (v : V) (env0 : V → Option Val)
+    (hnd : (pre ++ v :: post).Nodup) (hdeps : ∀ d ∈ G.deps v, d ∉ v :: post) :
+    run G (pre ++ v :: post) env0 v
+      = some (G.f v ((G.deps v).map fun d => (run G (pre ++ v :: post) env0 d).getD G.dflt)) := by
+  have hv_post : v ∉ post := by
+    have := (List.nodup_append.mp hnd).2.1
+    exact (List.nodup_cons.mp this).1
+  rw [run_append]
+  have h1 : run G (v :: post) (run G pre env0) v
+      = some (G.f v ((G.deps v).map fun d => (run G pre env0 d).getD G.dflt)) := by
+    show run G post (evalStep G (run G pre env0) v) v = _
+    rw [run_frame G post _ v hv_post]
+    simp [evalStep]
+  rw [h1]
+  congr 2
+  apply List.map_congr_left
+  intro d hd
+  rw [run_frame G (v :: post) _ d (hdeps d hd)]
+
+/-- **Order independence with non-existent dependencies.** -/
+theorem order_independent_in (G : Graph V Val) (U : V → Prop) (o₁ o₂ : List V) (env0 : V → Option Val)
+    (h₁ : ValidIn G U o₁) (h₂ : ValidIn G U o₂) :
+    ∀ v, v ∈ o₁ → v ∈ o₂ → run G o₁ env0 v = run G o₂ env0 v := by
+  suffices H : ∀ n pre v post, pre.length = n → o₁ = pre ++ v :: post → v ∈ o₂ →
+      run G o₁ env0 v = run G o₂ env0 v by
+    intro v hv1 hv2
+    obtain ⟨pre, post, rfl⟩ := List.append_of_mem hv1
+    exact H pre.length pre v post rfl rfl hv2
+  intro n
+  induction n using Nat.strongRecOn with
+  | _ n ih =>
+    intro pre v post hlen ho hv2
+    obtain ⟨pre2, post2, ho2⟩ := List.append_of_mem hv2
+    have d1 := h₁.2.2 pre v post ho
+    have d2 := h₂.2.2 pre2 v post2 ho2
+    -- a dependency is never evaluated at or after the vertex, in either order
+    have notlater : ∀ (o p q : List V), ValidIn G U o → o = p ++ v :: q → ∀ d ∈ G.deps v, d ∉ v :: q := by
+      intro o p q hval hsplit d hd hmem
+      have hnd : (p ++ v :: q).Nodup := hsplit ▸ hval.1
+      rcases hval.2.2 p v q hsplit d hd with hp | hnu
+      · exact (List.nodup_append.mp hnd).2.2 d hp d hmem rfl
+      · exact hnu (hval.2.1 d (by rw [hsplit]; exact List.mem_append_right _ hmem))
+    have e1 := run_fixpoint' G pre post v env0 (ho ▸ h₁.1) (notlater o₁ pre post h₁ ho)
+    have e2 := run_fixpoint' G pre2 post2 v env0 (ho2 ▸ h₂.1) (notlater o₂ pre2 post2 h₂ ho2)
+    have e1' : run G o₁ env0 v = some (G.f v ((G.deps v).map fun d => (run G o₁ env0 d).getD G.dflt)) := by
+      rw [ho]; exact e1
+    have e2' : run G o₂ env0 v = some (G.f v ((G.deps v).map fun d => (run G o₂ env0 d).getD G.dflt)) := by
+      rw [ho2]; exact e2
+    rw [e1', e2']
+    congr 2
+    apply List.map_congr_left
+    intro d hd
+    by_cases hU : U d
+    · -- an existing dependency: earlier in both orders
+      have hp1 : d ∈ pre := (d1 d hd).resolve_right (fun h => h hU)
+      have hp2 : d ∈ pre2 := (d2 d hd).resolve_right (fun h => h hU)
+      obtain ⟨p, q, hp⟩ := List.append_of_mem hp1
+      have hd2 : d ∈ o₂ := by rw [ho2]; exact List.mem_append_left _ hp2
+      have : run G o₁ env0 d = run G o₂ env0 d :=
+        ih p.length (by rw [← hlen, hp]; simp) p d (q ++ v :: post) rfl (by rw [ho, hp]; simp) hd2
+      rw [this]
+    · -- a dependency that does not exist: evaluated by neither order
+      have hn1 : d ∉ o₁ := fun h => hU (h₁.2.1 d h)
+      have hn2 : d ∉ o₂ := fun h => hU (h₂.2.1 d h)
+      rw [run_frame G o₁ env0 d hn1, run_frame G o₂ env0 d hn2]
+
 end Rex.Dataflow
